@@ -47,10 +47,11 @@ const (
 	ySession
 	ySink
 	yStart
+	yLibSync
 	nYieldKinds
 )
 
-var yieldNames = [...]string{"betweenops", "callback", "writer", "beforeget", "afterget", "afterput", "session", "sink", "start"}
+var yieldNames = [...]string{"betweenops", "callback", "writer", "beforeget", "afterget", "afterput", "session", "sink", "start", "library-sync-statement"}
 
 // prec is the simulator's record of one printer object.
 type prec struct {
